@@ -408,7 +408,7 @@ pub fn check(_ctx: &Ctx, input: &Input) -> CaseResult {
 fn run(ctx: &Ctx) {
     let plans = [GenPlan {
         gen: "exec-dup",
-        cases: ctx.tier.pick(5000, 150_000),
+        cases: ctx.tier.pick(25_000, 400_000),
         min_len: 80,
         max_len: ctx.tier.pick(1500, 3000),
     }];
